@@ -106,6 +106,8 @@ type world struct {
 	bufferedSel int // MNext logged while accepted messages were still unreceived
 	dropped     int
 	teardown    chan struct{}
+
+	machine *state.SyncMachine // the ONE machine of this world; Execute may be called on it again
 }
 
 func newWorld(prog []stateSpec, h0 uint64) *world {
@@ -333,7 +335,35 @@ func (w *world) release() bool {
 // ---------------------------------------------------------------- running the real machine
 
 func (w *world) start(logger log.StandardLogger, startBlock uint64) {
-	machine := state.NewSyncMachine(logger, &fakeChannel{w}, &fakeCounter{w}, &toyState{w, 0})
+	w.newMachine(logger)
+	w.exec(startBlock)
+}
+
+// newMachine builds the world's SyncMachine, once, with the production constructor.
+func (w *world) newMachine(logger log.StandardLogger) {
+	w.machine = state.NewSyncMachine(logger, &fakeChannel{w}, &fakeCounter{w}, &toyState{w, 0})
+}
+
+// beginRun prepares the observation of a further Execute call on the SAME machine: the chain,
+// the channel's handler list and the machine stay; the log and the quiescence bookkeeping of
+// the previous call are dropped and the toy states behave as prog from now on. Returns the
+// chain height at the call.
+func (w *world) beginRun(prog []stateSpec) uint64 {
+	w.mu.Lock()
+	defer w.mu.Unlock()
+	w.prog = prog
+	w.log = nil
+	w.lastMachine, w.lastTarget, w.waiterTgt = kNone, 0, 0
+	w.enq, w.recv = 0, 0
+	w.inGate, w.gate = false, nil
+	w.done, w.outcome, w.panicText = false, "running", ""
+	w.bufferedSel, w.dropped = 0, 0
+	return w.height
+}
+
+// exec calls Execute on the world's machine in its own goroutine.
+func (w *world) exec(startBlock uint64) {
+	machine := w.machine
 	go func() {
 		var last state.SyncState
 		var end uint64
@@ -389,7 +419,9 @@ func (w *world) quiescent() bool {
 	case kMWait:
 		return w.lastTarget > w.height
 	case kMWaiter, kMRecv:
-		return w.enq == w.recv && w.waiterTgt > w.height
+		// recv > enq can only happen when the machine hands over messages that were not
+		// accepted during this Execute call; that must not look like "still busy"
+		return w.recv >= w.enq && w.waiterTgt > w.height
 	}
 	return false
 }
